@@ -198,3 +198,68 @@ func (a afterFunc) run() {
 	Sleep(a.d)
 	a.c.Send(Now())
 }
+
+// Pool is a simulated sync.Pool: Get returns one of the items put earlier (which one is a
+// decision; the baseline is the most recent) or a new one, as the real pool may drop items at any time.
+type Pool struct {
+	New   func() interface{}
+	items []interface{}
+	hb    int64
+	known bool
+}
+
+// A package-level pool outlives a simulated run, but every run stands for a fresh process:
+// pools are emptied when a run starts.
+var allPools []*Pool
+
+//go:norace
+func (p *Pool) register() {
+	if !p.known {
+		p.known = true
+		allPools = append(allPools, p)
+	}
+}
+
+//go:norace
+func resetPools() {
+	for _, p := range allPools {
+		p.items = nil
+	}
+}
+
+//go:norace
+func (p *Pool) Put(x interface{}) {
+	if x == nil {
+		return
+	}
+	p.register()
+	Yield("pool.Put")
+	raceReleaseMerge(&p.hb)
+	if len(p.items) < 64 {
+		p.items = append(p.items, x)
+	}
+}
+
+//go:norace
+func (p *Pool) Get() interface{} {
+	p.register()
+	Yield("pool.Get")
+	n := len(p.items)
+	if n > 0 {
+		k := 0
+		if S != nil {
+			k = S.choose(n + 1)
+		}
+		if k < n {
+			raceAcquire(&p.hb)
+			i := n - 1 - k
+			x := p.items[i]
+			p.items = append(p.items[:i:i], p.items[i+1:]...)
+			return x
+		}
+	}
+	if p.New != nil {
+		return p.New()
+	}
+	return nil
+}
